@@ -102,16 +102,30 @@ def _block(stmts):
     return ";".join(out)
 
 
+def _clean(s):
+    return s.replace('"', "'").replace("\\", "/").replace("\n", " ")
+
+
 def control_skeleton(fn):
-    """`fn`: ast.FunctionDef.  Returns the skeleton string (no double quotes, no backslashes: safe in a Lean literal)."""
-    return _block(fn.body).replace('"', "'").replace("\\", "/")
+    """`fn`: ast.FunctionDef.  Returns `sig(<parameters with their defaults>)|<skeleton of the body>` (no double quotes,
+    no backslashes: safe in a Lean literal)."""
+    return _clean("sig(" + ast.unparse(fn.args) + ")|" + _block(fn.body))
+
+
+def full_text(fn):
+    """for SHORT functions whose model depends on the exact expressions (index tests, argument order): the signature
+    and every statement, normalised by ast.unparse (comments, docstrings and layout dropped)"""
+    body = [st for st in fn.body if not (isinstance(st, ast.Expr) and isinstance(st.value, ast.Constant))]
+    return _clean("sig(" + ast.unparse(fn.args) + ")|" + " ; ".join(" ".join(ast.unparse(st).split()) for st in body))
 
 
 def lean_defs(pairs):
-    """[(lean_name, FunctionDef or None)] -> Lean source of the `shape…` definitions"""
+    """[(lean_name, FunctionDef or None[, "full"])] -> Lean source of the `shape…` definitions"""
     out = []
-    for name, fn in pairs:
-        sk = control_skeleton(fn) if fn is not None else "<function not found>"
+    for item in pairs:
+        name, fn = item[0], item[1]
+        mode = item[2] if len(item) > 2 else "skeleton"
+        sk = "<function not found>" if fn is None else full_text(fn) if mode == "full" else control_skeleton(fn)
         out.append('/-- control skeleton of the function the model transcribes (tests, loop headers, kinds of statements\n'
                    'and the names they bind; see harness/extract/shape.py) -/\ndef %s : String :=\n  "%s"' % (name, sk))
     return "\n".join(out) + "\n"
@@ -121,7 +135,8 @@ def lean_defs_from_source(ctx, spec):
     """spec: [(lean_name, path relative to the repository, qualified function name)]"""
     from extract import pyexpr
     trees, pairs = {}, []
-    for name, rel, qual in spec:
+    for item in spec:
+        name, rel, qual = item[:3]
         fn = None
         try:
             if rel not in trees:
@@ -129,5 +144,5 @@ def lean_defs_from_source(ctx, spec):
             fn = pyexpr.find_function(trees[rel], qual)
         except (pyexpr.Unknown, SyntaxError, OSError):
             fn = None
-        pairs.append((name, fn))
+        pairs.append((name, fn) + tuple(item[3:4]))
     return lean_defs(pairs)
